@@ -101,6 +101,8 @@ def import_cases(rng, n):
     """OPML / ITMZ-mapdata texts: exports of generated documents, mutated byte-wise, plus hand-made attribute shapes"""
     base = [gen_md.structured(rng) for _ in range(max(4, n // 8))]
     base = [b if isinstance(b, bytes) else b.encode() for b in base]
+    # (longer outlines too: the imported text is then much shorter than the outline it replaces)
+    base += [b"\n\n".join(rng.choice(base) for _ in range(rng.randint(2, 12))) for _ in range(max(2, len(base) // 2))]
     exp = tchk.convert([(b, "opml", E["smart"], 0) for b in base])
     texts = [r.out for r in exp if r.ok()]
     hand = [b'<?xml version="1.0"?><opml version="1.0"><body><outline a="x" text="T" _note="n"></outline></body></opml>',
@@ -120,7 +122,45 @@ def import_cases(rng, n):
             elif k < 0.7: del t[p:p + rng.randint(1, 20)]
             else: t[p:p] = rng.choice([b'<outline text="x"', b"&#", b'="', b"</outline>", b"<outline/>", b"\xff", b"&amp;amp;"])
         out.append(bytes(t).replace(b"\0", b" "))
-    return [(t, rng.choice(["mmd", "html", "opml"]), E["smart"] | E[rng.choice(["opml_in", "itmz_in"])], 0) for t in out]
+    res = [(t, rng.choice(["mmd", "html", "opml"]), E["smart"] | E[rng.choice(["opml_in", "itmz_in"])], 0) for t in out]
+    # real ITMZ archives: the tool's own exports, archives whose mapdata.xml has a length at / around the buffer sizes the
+    # reader starts from and grows to (1024, 2048, 4096 ...), members stored and deflated, and byte-mutated archives
+    import io, zipfile
+    def archive(xml, method, name="mapdata.xml", extra=()):
+        bio = io.BytesIO()
+        with zipfile.ZipFile(bio, "w", method) as z:
+            for n, b in extra: z.writestr(n, b)
+            z.writestr(name, xml)
+        return bio.getvalue()
+    zips = [r.out for r in tchk.convert([(b, "itmz", E["smart"], 0) for b in base[:max(4, n // 16)]]) if r.ok()]
+    maps = []
+    for zb in zips[:max(2, n // 40)]:
+        try: maps.append(tchk.members(zb)[0]["mapdata.xml"])
+        except Exception: pass
+    if not maps: maps = [b'<iThoughts>\n<topic uuid="1" text="T" note="n"></topic></iThoughts>\n']
+    sizes = [1022, 1023, 1024, 1025, 2047, 2048, 2049, 4095, 4096, 4097, 8192, 0, 1, 2, 3]
+    for i in range(max(len(sizes), n // 6)):
+        x = rng.choice(maps); want = sizes[i] if i < len(sizes) else rng.choice(sizes[:11]) + rng.choice([0, 0, -1, 1])
+        if len(x) < want:
+            x = x.replace(b"<iThoughts>", b"<iThoughts>" + b" " * (want - len(x)), 1) if rng.random() < 0.5 else x + b"\n" * (want - len(x))
+        else:
+            x = x[:want]
+        zips.append(archive(x, rng.choice([zipfile.ZIP_STORED, zipfile.ZIP_DEFLATED]),
+                            extra=rng.choice([(), (("assets/a.png", b"x" * 10),), (("mapdata.xml.bak", b"y"),)])))
+    zips.append(archive(b"<iThoughts/>", zipfile.ZIP_STORED, name="other.xml"))
+    for i in range(n // 6):
+        t = bytearray(rng.choice(zips))
+        for _ in range(rng.randint(1, 4)):
+            p = rng.randrange(len(t)); t[p] = rng.randrange(256)
+        zips.append(bytes(t))
+    res += [(zb, rng.choice(["mmd", "html", "opml", "itmz"]), E["smart"] | E["itmz_in"], 0) for zb in zips]
+    return res
+
+
+def crash_sig(o):
+    """what went wrong, without addresses"""
+    m = re.search(r"(AddressSanitizer: [a-z-]+|runtime error: [^\n]{0,60}|SEGV|stack-overflow)", o) or re.search(r"(rc=[-a-z0-9]+)", o)
+    return m.group(1)[:60] if m else o[:40]
 
 
 def shrink(case, variant, data):
@@ -170,7 +210,7 @@ def run(rep, tier, seed):
             api_n += len(outs)
             for ln, o in zip(lines, outs):
                 if o.startswith("CRASH"):
-                    crashes.setdefault("sanitizer:api:%s:%s" % (variant, o[:80]), []).append(((bytes.fromhex(ln.split(" ")[3]) if ln.split(" ")[3] != "-" else b"", "api", 0, 0), False, variant, o))
+                    crashes.setdefault("sanitizer:api:%s:%s" % (variant, crash_sig(o)), []).append(((bytes.fromhex(ln.split(" ")[3]) if ln.split(" ")[3] != "-" else b"", "api", 0, 0), False, variant, o))
         # CriticMarkup accept / reject on whole strings and ranges; metadata update
         soup = [gen_md.soup(rng) for _ in range(100 if tier == "quick" else 2000)]
         soup = [s if isinstance(s, bytes) else s.encode("utf-8", "replace") for s in soup]
@@ -186,19 +226,24 @@ def run(rep, tier, seed):
             api_n += len(outs)
             for ln, o in zip(bl, outs):
                 if o.startswith("CRASH"):
-                    crashes.setdefault("sanitizer:critic:%s:%s" % (variant, o[:80]), []).append(((bytes.fromhex(ln.split(" ")[1]) if ln.split(" ")[1] != "-" else b"", "critic", 0, 0), False, variant, o + " :: " + ln[:40]))
+                    crashes.setdefault("sanitizer:critic:%s:%s" % (variant, crash_sig(o)), []).append(((bytes.fromhex(ln.split(" ")[1]) if ln.split(" ")[1] != "-" else b"", "critic", 0, 0), False, variant, o + " :: " + ln[:40]))
         ml = []
         for s in soup[:len(soup) // 2]:
             s = (rng.choice([b"Title: x\nAuthor: y\n\n", b"title:\n", b"---\nk: v\n---\n", b"", b"k:v"]) + s[:1500]).replace(b"\0", b" ")
             key = rng.choice([b"title", b"author", b"new key", b"k", b"\xc3\xa9", b"a" * 200])
             ml.append("Q %s %s" % (s.hex() or "-", key.hex())); ml.append("U %s %s %s" % (s.hex() or "-", key.hex(), rng.choice([b"v", b"", b"multi\nline", b"x" * 500]).hex() or "-"))
+        # an imported outline replaces the engine's text buffer: updating metadata on that engine afterwards must see the new buffer's size
+        for t, f, e, l in sorted(imps, key=lambda c: -len(c[0]))[:20] + rng.sample(imps, min(len(imps), 30 if tier == "quick" else 1500)):
+            for how in (0, 1):
+                ml.append("I %s %s %s %d %d" % (t.hex() or "-", rng.choice([b"title", b"k", b"new key"]).hex(),
+                                                (b"v" * rng.choice([1, 600, 1100, 2100, 4200, 9000])).hex(), e, how))
         for variant in ("asan", "asan-nopool"):
             har = common.build_harness(variant, "meta")
             outs = common.run_lines_par(har, ml, timeout=3600)
             api_n += len(outs)
             for ln, o in zip(ml, outs):
                 if o.startswith("CRASH"):
-                    crashes.setdefault("sanitizer:meta:%s:%s" % (variant, o[:80]), []).append(((bytes.fromhex(ln.split(" ")[1]) if ln.split(" ")[1] != "-" else b"", "meta", 0, 0), False, variant, o + " :: " + ln[:20]))
+                    crashes.setdefault("sanitizer:meta:%s:%s" % (variant, crash_sig(o)), []).append(((bytes.fromhex(ln.split(" ")[1]) if ln.split(" ")[1] != "-" else b"", "meta", 0, 0), False, variant, o + " :: " + ln[:20]))
     finally:
         shutil.rmtree(rundir, ignore_errors=True)
     rep.cov["evaluations"] = total + api_n + rep.cov.get("table_alignment_cases_matching_model", 0)
